@@ -22,8 +22,11 @@ import (
 //	sym <a> <b> | ok ab=<r> ba=<r>                          node A about a record advertising b, node B about a record advertising a
 //	frame <a> <b> <hex> | ok <hex> / err                    A.encodeUtpContent(for B) then B.decodeUtpContent(from A)
 //	hist <own> <steps> | ok r=<r>,<r>,.. own=<hex>,<hex>,..   a history of calls on ONE instance; steps = ';'-separated
-//	                                                        <peer index>:<kind>:<pv> (same index = same node object = same
-//	                                                        cache entry); r per step, own = the instance's list after each step
+//	                                                        <ident>.<seq>:<kind>:<pv> : the call is made with THE record object
+//	                                                        (ident, seq) - one object per pair, records of one ident share the
+//	                                                        node id (key) and differ in sequence number and possibly pv;
+//	                                                        "<ident>:" is short for "<ident>.0:"; r per step, own = the
+//	                                                        instance's list after each step
 //	accenc <own> <tablepv|none> <reqkind> <reqpv> <exhaust> <n> | ok enc=<0|1|?> / err
 //	     a full protocol instance (own versions) gets a real OFFER of n fresh keys through handleTalkRequest from a peer whose
 //	     CURRENT record (seq 2) carries reqkind/reqpv, while the routing table holds an OLDER record (seq 1) of the same
@@ -170,15 +173,16 @@ func c19livePair(c *Ctx, a, b []byte, n int) {
 }
 
 type c19step struct {
-	peer int
+	peer int // identity (private key) of the peer
 	kind string
 	pv   []byte
+	seq  int // which record of that peer the call is made with
 }
 
 func c19stepsString(st []c19step) string {
 	p := make([]string, len(st))
 	for i, x := range st {
-		p[i] = fmt.Sprintf("%d:%s:%s", x.peer, x.kind, hx(x.pv))
+		p[i] = fmt.Sprintf("%d.%d:%s:%s", x.peer, x.seq, x.kind, hx(x.pv))
 	}
 	return strings.Join(p, ";")
 }
@@ -189,9 +193,13 @@ func c19parseSteps(s string) []c19step {
 		if len(f) != 3 {
 			continue
 		}
-		var idx int
-		fmt.Sscan(f[0], &idx)
-		out = append(out, c19step{idx, f[1], unhx(f[2])})
+		var idx, seq int
+		if strings.Contains(f[0], ".") {
+			fmt.Sscanf(f[0], "%d.%d", &idx, &seq)
+		} else {
+			fmt.Sscan(f[0], &idx)
+		}
+		out = append(out, c19step{idx, f[1], unhx(f[2]), seq})
 	}
 	return out
 }
@@ -203,14 +211,20 @@ func c19hist(c *Ctx, own []byte, steps []c19step) {
 	// instance's own list is visible here
 	inst := append([]byte{}, own...)
 	p := portalwire.VerifONewVersionProbe(inst)
-	nodes := map[int]*enode.Node{}
+	nodes := map[[2]int]*enode.Node{}
+	keys := map[int]*ecdsa.PrivateKey{}
 	rs := make([]string, len(steps))
 	owns := make([]string, len(steps))
 	for i, st := range steps {
-		n, ok := nodes[st.peer]
+		n, ok := nodes[[2]int{st.peer, st.seq}]
 		if !ok {
-			n = c19record(c19key(c), st.kind, st.pv)
-			nodes[st.peer] = n
+			k, have := keys[st.peer]
+			if !have {
+				k = c19key(c)
+				keys[st.peer] = k
+			}
+			n = c19recordSeq(k, st.kind, st.pv, uint64(st.seq))
+			nodes[[2]int{st.peer, st.seq}] = n
 		}
 		rs[i] = c19get(p, n)
 		owns[i] = hx(inst)
@@ -226,7 +240,16 @@ func c19randSteps(c *Ctx, n int) []c19step {
 	first := map[int]c19step{}
 	for i := 0; i < n; i++ {
 		idx := r.Intn(n)
-		if st, ok := first[idx]; ok { // the same node again: same record
+		if st, ok := first[idx]; ok && r.Intn(2) == 0 { // the same record object again
+			out = append(out, st)
+			continue
+		} else if ok { // the peer has republished: a new record object of the same node id, possibly another pv
+			st.seq = st.seq + 1 + r.Intn(2)
+			st.kind, st.pv = "list", c19subset(1+r.Intn(7), []byte{1, 0, 2})
+			if r.Intn(5) == 0 {
+				st.kind, st.pv = "missing", nil
+			}
+			first[idx] = st
 			out = append(out, st)
 			continue
 		}
@@ -424,9 +447,11 @@ func runC19(c *Ctx) {
 	c19fbs(c, nil, nil)
 	// histories on one instance, own lists in non-ascending order: no-pv peer, pv peer, another no-pv peer, ...
 	for _, own := range [][]byte{{1, 0}, {2, 0, 1}, {0, 1}, {1}, {2, 1, 0}, {0, 2}} {
-		c19hist(c, own, []c19step{{0, "missing", nil}, {1, "list", []byte{0, 1}}, {2, "missing", nil}})
-		c19hist(c, own, []c19step{{0, "missing", nil}, {1, "list", []byte{1, 0, 2}}, {2, "missing", nil}, {1, "list", []byte{1, 0, 2}}, {3, "malformed", []byte{0}}, {4, "list", []byte{5}}, {5, "missing", nil}, {0, "missing", nil}})
-		c19hist(c, own, []c19step{{0, "list", []byte{9}}, {1, "missing", nil}, {0, "list", []byte{9}}, {2, "list", []byte{2, 0}}, {3, "missing", nil}})
+		c19hist(c, own, []c19step{{0, "missing", nil, 0}, {1, "list", []byte{0, 1}, 0}, {2, "missing", nil, 0}})
+		c19hist(c, own, []c19step{{0, "missing", nil, 0}, {1, "list", []byte{1, 0, 2}, 0}, {2, "missing", nil, 0}, {1, "list", []byte{1, 0, 2}, 0}, {3, "malformed", []byte{0}, 0}, {4, "list", []byte{5}, 0}, {5, "missing", nil, 0}, {0, "missing", nil, 0}})
+		c19hist(c, own, []c19step{{0, "list", []byte{0}, 1}, {0, "list", []byte{0, 1}, 2}, {0, "list", []byte{0}, 1}, {0, "list", []byte{0, 1}, 2}})
+		c19hist(c, own, []c19step{{0, "list", []byte{0, 1}, 1}, {0, "list", []byte{0}, 2}, {1, "missing", nil, 0}, {0, "missing", nil, 3}, {0, "list", []byte{1, 2}, 4}})
+		c19hist(c, own, []c19step{{0, "list", []byte{9}, 0}, {1, "missing", nil, 0}, {0, "list", []byte{9}, 0}, {2, "list", []byte{2, 0}, 0}, {3, "missing", nil, 0}})
 	}
 	for i := 0; i < n; i++ {
 		a, b := c19randlist(c), c19randlist(c)
